@@ -148,6 +148,20 @@ let path_ = list_ (fun x -> nat_of_int (int_ x))
 let show_path p = "(" ^ Stdlib.String.concat " " (List.map (fun i -> string_of_int (int_of_nat i)) p) ^ ")"
 let show_paths ps = "(" ^ Stdlib.String.concat " " (List.map show_path ps) ^ ")"
 
+let show_cset cs = "(" ^ Stdlib.String.concat " " (List.map (fun (a, b) -> Printf.sprintf "(%d %d)" (int_of_n a) (int_of_n b)) cs) ^ ")"
+let rec show_re = function
+  | Eps -> "eps" | BehindStart -> "behindstart" | AtStart -> "atstart" | AtEnd -> "atend" | AtEndStrict -> "atendstrict"
+  | Chr cs -> "(chr " ^ show_cset cs ^ ")"
+  | Seq (a, b) -> "(seq " ^ show_re a ^ " " ^ show_re b ^ ")"
+  | Alt (a, b) -> "(alt " ^ show_re a ^ " " ^ show_re b ^ ")"
+  | Rep (g, mn, mx, r) -> Printf.sprintf "(rep %d %d %s %s)" (if g then 1 else 0) (int_of_nat mn)
+                            (match mx with None -> "inf" | Some m -> string_of_int (int_of_nat m)) (show_re r)
+  | Look (neg, r) -> Printf.sprintf "(look %d %s)" (if neg then 1 else 0) (show_re r)
+  | Behind (neg, cs) -> Printf.sprintf "(behind %d %s)" (if neg then 1 else 0) (show_cset cs)
+  | Grp (g, r) -> Printf.sprintf "(grp %d %s)" (int_of_nat g) (show_re r)
+let aop_ x = match atom x with "=" -> OpEq | "~=" -> OpWord | "|=" -> OpDash | "^=" -> OpPrefix | "$=" -> OpSuffix
+  | "*=" -> OpSubstr | _ -> failwith "aop"
+
 let cur_tree = ref { t_xml = false; t_isdoc = false; t_root = Str (KText, []) }
 let cur_ns = ref []
 let cur_sl = ref (SL ([], false, false))
@@ -181,6 +195,7 @@ let handle (e : sexp) : Stdlib.String.t =
     show_res show_paths (api_select bidi_of !cur_tree !cur_ns !cur_sl (path_ p) (z_of_string (atom lim)))
   | L [A "filter"; p] -> show_res show_paths (api_filter bidi_of !cur_tree !cur_ns !cur_sl (path_ p))
   | L [A "closest"; p] -> show_res (show_opt show_path) (api_closest bidi_of !cur_tree !cur_ns !cur_sl (path_ p))
+  | L [A "attr_template"; op; v; ic; dotall] -> show_re (attr_template (aop_ op) (str_ v) (bool_ ic) (bool_ dotall))
   | L [A "langfilter"; r; t] -> show_bool (extended_language_filter (str_ r) (str_ t))
   | _ -> failwith "unknown command"
 
